@@ -61,6 +61,9 @@ type scenario struct {
 	ReHalfOpen bool `json:"re_half_open,omitempty"`
 	// T0: the virtual clock's reading when the scenario starts
 	T0 int64 `json:"t0,omitempty"`
+	// BackStepNs: while the breaker is open the clock reads this much earlier than when it opened (the library reads the
+	// wall clock, which gets set back now and then); the delay has not elapsed by any reading, nothing may get through
+	BackStepNs int64 `json:"back_step_ns,omitempty"`
 }
 
 type execState struct {
@@ -337,6 +340,11 @@ func run(sc scenario) (out runOut) {
 		if got := w.cb.State(); got != circuitbreaker.OpenState {
 			return fail("state", "round %d: expected the breaker to be open, it is %v", round, got)
 		}
+		back := sc.BackStepNs
+		if back > w.now.Load() {
+			back = w.now.Load()
+		}
+		w.now.Add(-back)
 		var blocked []*execState
 		for _, sp := range sc.Blocked {
 			blocked = append(blocked, w.submit(sp))
@@ -352,6 +360,7 @@ func run(sc scenario) (out runOut) {
 		if w.cb.TryAcquirePermit() {
 			return fail("admitted-while-open", "round %d: TryAcquirePermit succeeded on the open breaker before its delay elapsed", round)
 		}
+		w.now.Add(back) // the clock is right again
 
 		if sc.CB.Delay > 1<<60 {
 			// "open until closed by hand": the clock moves on (days), the breaker stays open; no trial phase
@@ -631,7 +640,8 @@ func genScenario(t *rapid.T) scenario {
 	if rapid.IntRange(0, 7).Draw(t, "hugeDelay") == 0 {
 		c.Delay = rapid.SampledFrom([]int64{math.MaxInt64, math.MaxInt64 - 1, 1 << 62}).Draw(t, "delayHuge")
 	}
-	sc := scenario{CB: c, RaceB: rapid.Bool().Draw(t, "raceB"), Rounds: rapid.IntRange(1, 3).Draw(t, "rounds"), SlowOpen: rapid.Bool().Draw(t, "slowOpen"), BurstRelease: rapid.Bool().Draw(t, "burstRelease"), ReHalfOpen: rapid.Bool().Draw(t, "reHalfOpen"), T0: rapid.SampledFrom([]int64{0, 1, 1700000000000000000}).Draw(t, "t0")}
+	sc := scenario{CB: c, RaceB: rapid.Bool().Draw(t, "raceB"), Rounds: rapid.IntRange(1, 3).Draw(t, "rounds"), SlowOpen: rapid.Bool().Draw(t, "slowOpen"), BurstRelease: rapid.Bool().Draw(t, "burstRelease"), ReHalfOpen: rapid.Bool().Draw(t, "reHalfOpen"), T0: rapid.SampledFrom([]int64{0, 1, 1700000000000000000}).Draw(t, "t0"),
+		BackStepNs: rapid.SampledFrom([]int64{0, 0, 0, 1, 1000, 3_600_000_000_000}).Draw(t, "backStepNs")}
 	maxG := 16
 	if harness.Thorough() {
 		maxG = 32
